@@ -292,6 +292,10 @@ impl serde::Serializer for Serializer {
             crate::serde::rawnumber::TOKEN => Ok(SerializeMap {
                 map: MapInner::RawNumber { out_value: None },
             }),
+            // a lazy value hands over its raw JSON text: the DOM holds the value that text denotes
+            crate::lazyvalue::TOKEN => Ok(SerializeMap {
+                map: MapInner::RawJson { out_value: None },
+            }),
             _ => self.serialize_map(Some(len)),
         }
     }
@@ -341,6 +345,9 @@ enum MapInner {
         next_key: Option<Value>, // object key is value
     },
     RawNumber {
+        out_value: Option<Value>,
+    },
+    RawJson {
         out_value: Option<Value>,
     },
 }
@@ -432,7 +439,7 @@ impl serde::ser::SerializeMap for SerializeMap {
                 *next_key = Some(tri!(key.serialize(MapKeySerializer)));
                 Ok(())
             }
-            MapInner::RawNumber { .. } => unreachable!(),
+            MapInner::RawNumber { .. } | MapInner::RawJson { .. } => unreachable!(),
         }
     }
 
@@ -449,14 +456,14 @@ impl serde::ser::SerializeMap for SerializeMap {
                 object.insert(key.as_str().unwrap(), tri!(to_value(value)));
                 Ok(())
             }
-            MapInner::RawNumber { .. } => unreachable!(),
+            MapInner::RawNumber { .. } | MapInner::RawJson { .. } => unreachable!(),
         }
     }
 
     fn end(self) -> Result<Value> {
         match self.map {
             MapInner::Object { object, .. } => Ok(object),
-            MapInner::RawNumber { .. } => unreachable!(),
+            MapInner::RawNumber { .. } | MapInner::RawJson { .. } => unreachable!(),
         }
     }
 }
@@ -834,6 +841,19 @@ impl serde::ser::SerializeStruct for SerializeMap {
                     unreachable!()
                 }
             }
+            MapInner::RawJson { out_value } => {
+                if key == crate::lazyvalue::TOKEN {
+                    // the field is the raw text (a str): parse it
+                    let raw = tri!(value.serialize(RawNumberEmitter));
+                    let text = raw.as_raw_number().map(|n| n.as_str().to_string());
+                    *out_value = Some(tri!(crate::from_str::<Value>(
+                        text.as_deref().unwrap_or_default()
+                    )));
+                    Ok(())
+                } else {
+                    unreachable!()
+                }
+            }
         }
     }
 
@@ -843,6 +863,7 @@ impl serde::ser::SerializeStruct for SerializeMap {
             MapInner::RawNumber { out_value, .. } => {
                 Ok(out_value.expect("number value was not emitted"))
             }
+            MapInner::RawJson { out_value, .. } => Ok(out_value.expect("value was not emitted")),
         }
     }
 }
